@@ -51,6 +51,15 @@ pub fn check(case: &C16Case, st: &mut Stats) -> Verdict {
     if n >= 1 {
         st.nontrivial();
     }
+    {
+        let mut used: Vec<&String> = case.salts[..n].iter().collect();
+        used.sort();
+        let before = used.len();
+        used.dedup();
+        if used.len() < before {
+            st.label("salts_repeated_among_those_used");
+        }
+    }
     // textual hazards in hidden values
     {
         let txt = spec.claims.to_string();
